@@ -4,7 +4,8 @@ produces all of them.
 The whole tree of random choices of find() on a `nondeterministic = True` environment
 is explored (mc/sched/choice.py replaces the name `random` inside
 jsonpath_rfc9535.segments / .selectors by an enumerating chooser; depth-first, one
-execution per leaf, prefix replay).  Inputs: 12 queries x all JSON trees with <= 5
+execution per leaf, prefix replay).  Inputs: 10 queries x 7 documents with objects of 3-5
+members (every permutation of the members must be producible); 12 queries x all JSON trees with <= 5
 (quick) / <= 6 (thorough) nodes, plus the repository's nondeterminism cases.
 Oracle: R3's permitted set P(q, d).  Validity: every leaf result is in P.
 Exhaustiveness: the union of the leaf results equals P.
@@ -76,12 +77,19 @@ def shards(tier):
     step = 200 if tier == "quick" else 500
     out = [{"part": "trees", "n": n, "lo": lo, "hi": min(lo + step, total)} for lo in range(0, total, step)]
     out.append({"part": "fixtures"})
+    out += [{"part": "wide", "i": i} for i in range(len(WIDE_DOCS))]
     sk = skeletons(7 if tier == "quick" else 8)
     out += [{"part": "skeleton", "lo": lo, "hi": min(lo + 10, len(sk)), "max": 7 if tier == "quick" else 8}
             for lo in range(0, len(sk), 10)]
     return out
 
 
+WIDE_DOCS = [
+    {"a": 1, "b": 2, "c": 3}, {"a": 1, "b": 2, "c": 3, "d": 4}, {"a": 0, "b": None, "c": False, "d": "", "e": []},
+    [{"a": 1, "b": 2, "c": 3}, {"x": 1, "y": 2, "z": 3}], {"k": {"a": 1, "b": [2], "c": 3}, "l": 0},
+    {"a": {"p": 1, "q": 2, "r": 3}, "b": [0]}, {"a": [1, 2], "b": [3], "c": [4, [5]]},
+]
+WIDE_QUERIES = ["$.*", "$[*]", "$[?@]", "$[?@ != 2]", "$..*", "$[*][*]", "$.*.*", "$..[?@]", "$[*, *]", "$[?@, *]"]
 _SK = {}
 
 
@@ -204,6 +212,12 @@ def run_shard(desc):
                 for v in check_input(q, doc, sh):
                     sh.violation(v)
         sh.sample({"query": QUERIES[1], "doc": impl.jsonable(docs[-1])}, limit=1)
+    elif desc["part"] == "wide":
+        doc = WIDE_DOCS[desc["i"]]
+        for q in WIDE_QUERIES:
+            for v in check_input(q, doc, sh):
+                sh.violation(v)
+        sh.sample({"query": WIDE_QUERIES[0], "doc": impl.jsonable(doc)}, limit=1)
     elif desc["part"] == "skeleton":
         docs = skeletons(desc["max"])[desc["lo"]:desc["hi"]]
         for doc in docs:
